@@ -5948,6 +5948,11 @@ class CodegenCtx:
             return self._generate_condition_point_body(state)
         result = Outputter()
 
+        # With strict done token generation, the DONE that transitions into this state would otherwise have returned immediately is reported here instead
+        if ProgramData.do(ProgramFlag.STRICT_DONE_TOKEN_GENERATION) and state in self.dfa.accepting_states and state.transitions and all(x.error_handling for x in state.transitions):
+            result.add(f"return {self.program_name.upper()}_DONE;")
+            return result.value()
+
         # Split transitions into else groups
         try:
             actual_else_transition = next(state.all_transitions_for((DFTransition.Else,)))
